@@ -14,7 +14,7 @@ import subprocess
 
 from lib import vf, toks, suite
 from gen import corpus
-from checks import c08
+from checks import c08, c16
 
 ENVS = [{"LANG": "C", "LC_ALL": "C"}, {"LANG": "tr_TR.UTF-8", "LC_ALL": "tr_TR.UTF-8", "TZ": "Pacific/Kiritimati"},
         {"LANG": "en_US.UTF-8", "RUST_BACKTRACE": "1", "TMPDIR": "/tmp", "COLUMNS": "40"}, {"CARGO_BUILD_JOBS": "1", "RAYON_NUM_THREADS": "1"}]
@@ -36,8 +36,20 @@ def main():
     nproc = 16 if thorough else 4
     norders = 8 if thorough else 2
     corp = corpus.build(vf.seed(), nrand=(600 if thorough else 200))
+    # the renaming stages keep per-signature state (taken identifiers, retry loops): every pattern list of the C16 model up to
+    # length 2 that contains an interaction symbol (names equal to the function's, to a would-be generated or would-be renamed
+    # one) joins the corpus, so that such state leaking from one invocation into the next shows as order dependence
+    pcases, _ = vf.mc_cases(chk, "MC_C16", actions=["Simplify", "LiftInner", "Autogenerate", "GenDone", "FixIdentConflicts", "Finish"])
+    inter = {"fnname", "fnname_", "rawfn", "gnext", "gprev", "ugnext", "ugprev", "liftfn", "liftfn_", "wild", "tup2"}
+    pick = [c for c in pcases if inter & set(c["list"])]
+    prng = random.Random(vf.seed())
+    prng.shuffle(pick)
+    pick = pick if thorough else pick[:500]
+    for c in pick:
+        corp.append((f"p{c['case']}", c16.render(c)))
+    chk.cov["pattern_list_invocations"] = len(pick)
     crate = vf.Crate(os.path.join(chk.work, "crate"), "c20cases", deps=["vt", "async-trait"])
-    crate.prelude = c08.PRELUDE + "pub struct X;\n"
+    crate.prelude = c08.PRELUDE + "pub struct X;\n" + c16.PRELUDE
     for cid, src in corp:
         crate.add_case(cid + "a", src)
         crate.add_case(cid + "b", src)      # the same invocation twice in one process
